@@ -118,7 +118,10 @@ resources = [
     resource([seg("things", "thingId", prim("string")), seg("info")], ref("Inner"), [
         rest("get", False, ret=ref("Inner")), rest("update", False), rest("delete", False),
         method("ACTION", "reset", False, params=[field("hard", prim("bool"), True)], ret=prim("int32"))]),
-    resource([seg("trs", "trId", ref("Tr"))], ref("Leaf"), [rest("get", True, ret=ref("Leaf")), rest("batch_get", False, ret=ref("Leaf"))]),
+    resource([seg("trs", "trId", ref("Tr"))], ref("Leaf"), [
+        # a REST method whose declared parameters are all optional
+        rest("get", True, ret=ref("Leaf"), params=[field("opt", prim("string"), True), field("cnt", prim("int32"), True)]),
+        rest("batch_get", False, ret=ref("Leaf"))]),
     resource([seg("cks", "ckId", ref("Ck"))], ref("Leaf"), [
         rest("get", True, ret=ref("Leaf")), rest("batch_get", False, ret=ref("Leaf")), rest("batch_delete", False),
         rest("create", False, ret=ref("Leaf"))]),
